@@ -211,6 +211,33 @@ func (pe *pathExplorer) Paths() []*cfgPath {
 							}
 							continue
 						}
+						// otherwise name the atom after the value the phi has on this path, so that it is
+						// identified with an earlier test of the same value
+						if xin, ok := x.(ssa.Instruction); ok {
+							e := &Expr{Op: "binop", Name: bo.Op.String(), Args: []*Expr{pe.pv.Of(x), pe.pv.Of(bo.Y)}}
+							a := normAtom(e, k == 0)
+							name := a.E.String()
+							if readsMemory(a.E) {
+								name = fmt.Sprintf("%s@%d", name, pe.epoch(xin))
+							}
+							if old, ok := atoms[name]; ok {
+								if old == a.Pol {
+									walk(s, blocks, atoms, order)
+								}
+								continue
+							}
+							na := map[string]bool{}
+							for x2, y := range atoms {
+								na[x2] = y
+							}
+							na[name] = a.Pol
+							pfx := "+"
+							if !a.Pol {
+								pfx = "-"
+							}
+							walk(s, blocks, na, append(append([]string{}, order...), pfx+name))
+							continue
+						}
 					}
 				}
 				name, val := pe.AtomName(cond, k == 0)
